@@ -101,6 +101,27 @@ def _explore_run(repo, task, psrc, publish, result):
         calls.append((list(args), dict(kwargs)))
         return result() if callable(result) else result
     ec = Obj("cascade.executor.runner.runner.ExecutionContext", {"tasks": {T: task}, "param_source": {T: psrc}, "callback": "cb", "publish": publish})
+    # the context is built the way the worker builds it — RunnerContext.project on the task sequence — so that whatever project precomputes for
+    # `run` (sorted outputs, resolved callables, ...) is there; the hand-made context above is the fallback if project cannot be evaluated
+    try:
+        pj = repo.funcs.get("cascade.executor.runner.entrypoint.RunnerContext.project")
+        if pj is not None:
+            ups = {}
+            for k_, (d_, ann_) in psrc.items():
+                ups.setdefault(d_.fields["task"], {})[d_.fields["output"]] = ann_
+            jt = {T: task, **{t_: Obj(CORE + "TaskInstance", {"definition": Obj(CORE + "TaskDefinition", {"output_schema": dict(o_)}), "static_input_kw": {}, "static_input_ps": {}})
+                              for t_, o_ in ups.items()}}
+            rc = {"self.job": Obj(CORE + "JobInstance", {"tasks": jt, "edges": [], "ext_outputs": [], "serdes": {}}, name="JOB"), "self.callback": "cb",
+                  "self.param_source": {T: {k_: d_ for k_, (d_, _a) in psrc.items()}}}
+            ts = Obj("cascade.executor.msg.TaskSequence", {"worker": Atom("W"), "tasks": [T], "publish": publish}, name="TS")
+            pp = [p_ for p_ in Interp(repo, max_concrete_iter=40).explore(pj, env=rc, args={"taskSequence": ts}) if p_.exit[0] == "return"]
+            if len(pp) == 1 and isinstance(pp[0].exit[1], Obj) and pp[0].exit[1].cls.endswith("ExecutionContext"):
+                built = pp[0].exit[1]
+                f_ = {**built.kwargs, **built.fields}
+                if f_.get("tasks") and T in f_["tasks"]:
+                    ec = Obj(built.cls, f_)
+    except Exception:
+        pass
     ip = Interp(repo, call_models={CORE + "TaskDefinition.func_dec": lambda run, a, k, n, f: ModelFn("task callable", fmodel)},
                 inline={"cascade.low.func.ensure", "cascade.low.func.assert_iter_empty"})
     paths = ip.explore(repo.func(RUN), args={"taskId": T, "executionContext": ec})
